@@ -20,6 +20,8 @@ type ModSet struct {
 	regions map[string][]string     // heap name -> predicates over bound variable "p" (SMT text)
 	ghosts  map[string]bool
 	alloc   bool
+	// regionBases: base pointers of region-style targets (elems(s), region(p)), for checks
+	regionBases []Term
 }
 
 func newModSet() *ModSet {
@@ -246,7 +248,12 @@ func (fr *Frame) addWrite(m *ModSet, addr ssa.Value, vt types.Type, avail func(s
 		switch a := addr.(type) {
 		case *ssa.FieldAddr:
 			st := a.X.Type().Underlying().(*types.Pointer).Elem()
-			m.addField(hn, c.V.fieldID(st, a.Field))
+			if avail(a.X) {
+				// the base object is known at the havoc point: exactly this cell
+				m.locs[hn] = append(m.locs[hn], c.fieldPtr(fr.val(a.X), st, a.Field))
+			} else {
+				m.addField(hn, c.V.fieldID(st, a.Field))
+			}
 		case *ssa.IndexAddr:
 			m.elems[hn] = true
 		default:
@@ -514,6 +521,34 @@ func (fr *Frame) modClauseCoarse(fc *FuncContract, e Expr, m *ModSet) {
 		}
 		unsuppContract(fc, "modifies %s: not a location", x.Name)
 	case ESel:
+		// T.f / pkg.T.f
+		tenv := &Env{c: c, pkg: c.V.pkgOfKey(fc.Key), vars: map[string]Binding{}}
+		if dp := c.V.P.ByPath[fc.DeclPkg]; dp != nil {
+			tenv.pkg = dp.Types
+		}
+		_, pnames := c.V.signatureOf(fc)
+		for _, n := range pnames {
+			tenv.vars[n] = Binding{}
+		}
+		if tn := typeNameOf(x.X, tenv); tn != nil {
+			if ts, ok := tn.Type().Underlying().(*types.Struct); ok {
+				if p2, ft2 := findField(ts, x.Name); len(p2) == 1 {
+					for _, lp := range c.leafPaths(ft2) {
+						srt := c.sortOf(lp.t)
+						hn := heapName(srt)
+						c.heapSort[hn] = srt
+						if len(lp.steps) == 0 {
+							m.addField(hn, c.V.fieldID(tn.Type(), p2[0]))
+						} else if fid, isF := lp.lastFieldID(); isF {
+							m.addField(hn, fid)
+						} else {
+							m.elems[hn] = true
+						}
+					}
+					return
+				}
+			}
+		}
 		// x.f : need the static type of x: resolve through the callee signature
 		ft, st, idx := fr.calleeFieldType(fc, x)
 		if ft == nil {
@@ -543,7 +578,34 @@ func (fr *Frame) modClauseCoarse(fc *FuncContract, e Expr, m *ModSet) {
 				m.heapAll[hn] = true
 				return
 			}
-		case "elems", "mapof", "fieldsof":
+		case "elems", "elemrange":
+			// element cells of a slice parameter: by element type
+			if len(x.Args) > 0 {
+				if id, ok := x.Args[0].(EIdent); ok {
+					sig, names := fr.c.V.signatureOf(fc)
+					for i, n := range names {
+						if n != id.Name || sig == nil {
+							continue
+						}
+						if sl, ok := paramType(sig, i).Underlying().(*types.Slice); ok {
+							for _, lp := range c.leafPaths(sl.Elem()) {
+								srt := c.sortOf(lp.t)
+								hn := heapName(srt)
+								c.heapSort[hn] = srt
+								if fid, isF := lp.lastFieldID(); isF {
+									m.addField(hn, fid)
+								} else {
+									m.elems[hn] = true
+								}
+							}
+							return
+						}
+					}
+				}
+			}
+			m.all = true
+			return
+		case "mapof", "fieldsof":
 			m.all = true
 			return
 		}
@@ -666,7 +728,39 @@ func (fr *Frame) enterLoop(li *loopInfo, phiEntry map[*ssa.Phi]Term) {
 		}
 	}
 	st := fr.st.clone()
-	c.havoc(st, m, fmt.Sprintf("%s of %s", kprefix, shortKey(funcKey(fr.fn))))
+	if li.lc != nil && li.lc.LocalOnly {
+		// all leaf heaps are havocked, framed for every cell that existed at function entry
+		for _, hn := range sortedKeys(c.heapSort) {
+			if !strings.HasPrefix(hn, "H_") {
+				continue
+			}
+			cur, ok := st.heaps[hn]
+			if !ok {
+				cur = c.entryHeapByName(hn)
+			}
+			n := c.fresh(hn, cur.Sort)
+			st.heaps[hn] = n
+			c.assume(Term{fmt.Sprintf("(forall ((p Ptr)) (! (=> (< (rootid p) alloc@0) (= (select %s p) (select %s p))) :pattern ((select %s p))))", n.S, cur.S, n.S), SBool})
+			c.wfHeap(n, c.heapSort[hn], st.alloc)
+		}
+		m2 := newModSet()
+		m2.ghosts = m.ghosts
+		m2.alloc = true
+		for hn := range m.heapAll {
+			if !strings.HasPrefix(hn, "H_") {
+				m2.heapAll[hn] = true
+			}
+		}
+		for hn, ls := range m.locs {
+			if !strings.HasPrefix(hn, "H_") {
+				m2.locs[hn] = ls
+			}
+		}
+		m2.all = false
+		c.havoc(st, m2, kprefix)
+	} else {
+		c.havoc(st, m, fmt.Sprintf("%s of %s", kprefix, shortKey(funcKey(fr.fn))))
+	}
 	fr.st = st
 	// 3. fresh phis
 	li.phiFresh = map[*ssa.Phi]Term{}
